@@ -16,11 +16,9 @@ def _c19(raw_key, case, desc):
     # KNOWN counted-name-collision: every shared constraint name is a *derived* name (ends with a _k_ counter or a
     # _slk_/_equ_ tag appended to one); duplicates of underived (original) names are not covered.
     if raw_key == "duplicate-con-name":
-        m = re.search(r"share the name\(s\) \[(.*?)\]", desc)
-        if m:
-            names = re.findall(r"'([^']*)'", m.group(1))
-            if names and all(re.search(r"_\d+_(_(slk|equ)_)?$", n) for n in names):
-                return "counted-name-collision"
+        names = case.get("dups") or []
+        if names and all(re.search(r"_\d+_(_(slk|equ)_)?$", n) for n in names):
+            return "counted-name-collision"
     return None
 
 
